@@ -14,7 +14,7 @@
    values; therefore "counted = physically inside" appears as a hypothesis of the playfield clause.
    Refuted: playfield.balls >= 0 (pf_balls_nonneg_refuted; reproduced on the code, known finding). *)
 From Common Require Import Prelude.
-From C04 Require Import Model Lemmas.
+From C04 Require Import Model Lemmas Counter CounterLemmas Compose.
 Open Scope Z_scope.
 
 (* step invariant behind everything: sum(counted) + pf.balls = known + pending bookings, sum(available)
@@ -85,3 +85,129 @@ Print Assumptions pf_balls_nonneg_refuted.
 Example accepted_run_exists : accepts cfgW dsW pfW (preW ++ postW) = true.
 Proof. exact witness_accepted. Qed.
 Print Assumptions accepted_run_exists.
+
+(* ---------------------------------------------------------------------------------------------- *)
+(* external eject confirmation (confirm_eject_type switch / event), incoming balls that time out *)
+
+(* an arriving ball is matched only with an expected ball that has passed its confirm switch / event; the match
+   takes that ball off the list of expected balls and books it for its source *)
+Theorem expected_arrival_is_confirmed :
+  forall c x d y,
+    step c x (LEnter d 0) = Some y ->
+    exists s r, pop_conf (inc x d) = Some (s, r) /\ s < UNCONF /\ In s (inc x d) /\ inc y d = r
+                /\ f y fCF s = f x fCF s + 1.
+Proof. exact expected_arrival_is_confirmed_l. Qed.
+Print Assumptions expected_arrival_is_confirmed.
+
+(* a ball is booked as lost (ball_missing_timeout at the target) only while it is still on the list: once booked
+   as arrived it cannot be booked as lost as well *)
+Theorem incoming_lost_only_if_expected :
+  forall c x t s y,
+    step c x (LIncTimeout t s) = Some y ->
+    In s (inc x t) /\ length (inc x t) = S (length (inc y t)) /\ f y fLI t = f x fLI t + 1.
+Proof. exact incoming_lost_only_if_expected_l. Qed.
+Print Assumptions incoming_lost_only_if_expected.
+
+Theorem incoming_lost_needs_timeout :
+  forall c x t s y, step c x (LIncLost t s) = Some y -> 1 <= f x fLI t.
+Proof. exact incoming_lost_needs_timeout_l. Qed.
+Print Assumptions incoming_lost_needs_timeout.
+
+Theorem confirmed_once :
+  forall c x d t y, step c x (LConfirmed d t) = Some y -> step c y (LConfirmed d t) = None.
+Proof. exact confirmed_once_l. Qed.
+Print Assumptions confirmed_once.
+
+(* satisfiability: confirmed ball late -> booked lost -> arrives after all (captured), books closed *)
+Example late_confirmed_run_accepted : accepts cfgX dsX pfX (preX ++ lostX) = true.
+Proof. exact witnessX_accepted. Qed.
+Print Assumptions late_confirmed_run_accepted.
+
+(* ... and the run in which the same ball is booked as arrived and then as lost is rejected at the timeout label *)
+Example late_ball_booked_twice_rejected :
+  c04_run (cfgX, (dsX, pfX), preX ++ twiceX) = Z.of_nat (length preX) + 4.
+Proof. exact booked_twice_rejected_l. Qed.
+Print Assumptions late_ball_booked_twice_rejected.
+
+(* ---------------------------------------------------------------------------------------------- *)
+(* the counting layer (Counter.v): SwitchCounter / EntranceSwitchCounter of a device that is not ejecting,
+   for ALL switch timelines *)
+
+(* counted balls are never negative and never exceed the number of switches (= capacity, + 1 with a jam switch) *)
+Theorem switch_count_in_range :
+  forall c evs, 0 <= last (crun c (cinit c) evs) <= Z.of_nat (nsw c).
+Proof. exact switch_count_in_range_l. Qed.
+Print Assumptions switch_count_in_range.
+
+(* a switch state that has been stable for at least the count delays is reported exactly (with a jam switch:
+   unless only the jam switch is active, and then the counter flags its count as unreliable) *)
+Theorem stable_state_reported :
+  forall c evs t,
+    let s := crun c (cinit c) evs in
+    ready_at c (sws s) <= t ->
+    let s' := settle c s t in
+    sws s' = sws s /\ (last s' = nactive (sws s) \/ (jam_only c s' = true /\ unrel s' = true)).
+Proof. exact stable_state_reported_l. Qed.
+Print Assumptions stable_state_reported.
+
+Theorem stable_state_reported_nojam :
+  forall c evs t,
+    c_jam c = false ->
+    let s := crun c (cinit c) evs in
+    ready_at c (sws s) <= t -> last (settle c s t) = nactive (sws s).
+Proof. exact stable_state_reported_nojam_l. Qed.
+Print Assumptions stable_state_reported_nojam.
+
+(* no count change without a switch change *)
+Theorem quiet_run_keeps_count :
+  forall c s evs,
+    dirty s = false -> forallb (fun e => negb (is_sw e)) evs = true ->
+    let s' := crun c s evs in
+    last s' = last s /\ sws s' = sws s /\ unrel s' = unrel s /\ dirty s' = false.
+Proof. exact quiet_run_keeps_count_l. Qed.
+Print Assumptions quiet_run_keeps_count.
+
+Theorem count_change_needs_switch_change :
+  forall c s e, last (cstep c s e) <> last s -> dirty s = true.
+Proof. exact count_change_needs_dirty_l. Qed.
+Print Assumptions count_change_needs_switch_change.
+
+(* entrance-switch counter: 0 <= count <= ball_capacity whatever rolls over the entrance switch *)
+Theorem entrance_count_in_range :
+  forall c evs, 0 <= e_cap c -> 0 <= e_last (e2 (erun c einit evs)) <= e_cap c.
+Proof. exact entrance_count_in_range_l. Qed.
+Print Assumptions entrance_count_in_range.
+
+(* satisfiability / non-triviality of the counter statements: two balls drop in 125 ms apart (one count window),
+   one bounces; after the delays the counter reports 2 then 1 *)
+Example counter_run_example :
+  ctrace (mkc 3 false 500 500 5000) (cinit (mkc 3 false 500 500 5000))
+         [CSw 0 0 true; CSw 125 1 true; CTick 500; CTick 625; CSw 1000 1 false; CSw 1125 1 true; CSw 1250 1 false;
+          CTick 1700; CTick 1750]
+  = [[0;0;0;0;0;0]; [0;0;0;0;0;0]; [0;0;0;0;0;0]; [2;0;0;2;0;0]; [2;0;0;2;0;0]; [2;0;0;2;0;0]; [2;0;0;2;0;0];
+     [2;0;0;2;0;0]; [1;0;1;2;0;0]].
+Proof. exact counter_run_example_l. Qed.
+Print Assumptions counter_run_example.
+
+(* ledger on top of the counters: the playfield clause of ledger_conservation without the hypothesis
+   "counted = physically inside" *)
+Theorem conservation_with_counters :
+  forall c ds pf pre m (cc : Z -> ccfg) (ce : Z -> list cev) (t : Z),
+    NoDup (devs c) -> reach c ds pf pre m -> books_closedb c m = true -> z m zTR = 0 ->
+    (forall d, In d (devs c) ->
+       let s := crun (cc d) (cinit (cc d)) (ce d) in
+       c_jam (cc d) = false /\ ready_at (cc d) (sws s) <= t /\
+       f m fC d = last (settle (cc d) s t) /\
+       f m fPH d = nactive (sws s)) ->
+       (forall d, In d (devs c) -> f m fC d = f m fPH d)
+    /\ z m zB + (z m zTOT - z m zK) = z m zLOOSE
+    /\ sumf (f m fC) (devs c) + z m zB = z m zK.
+Proof. exact conservation_with_counters_l. Qed.
+Print Assumptions conservation_with_counters.
+
+Theorem counter_report_in_ledger_range :
+  forall (c : cfg) (d : Z) (cc : ccfg) (evs : list cev),
+    c_jam cc = false -> 0 <= c_n cc -> c_n cc = cap c d ->
+    0 <= last (crun cc (cinit cc) evs) <= cap c d.
+Proof. exact counter_report_in_ledger_range_l. Qed.
+Print Assumptions counter_report_in_ledger_range.
